@@ -95,9 +95,14 @@ func init() {
 	// c18.namekey <serialized name key>: the key a client decodes from configuration; its serialization and
 	// the name key id the client's request carries
 	replayers["c18.namekey"] = func(c *Ctx, a []string) string {
-		k, err := type3.UnmarshalEncapKey(unhx(a[0]))
+		in := unhx(a[0])
+		k, err := type3.UnmarshalEncapKey(in)
 		if err != nil {
 			return "err"
+		}
+		// the configuration buffer the key was parsed from is recycled by its owner
+		for i := range in {
+			in[i] ^= 0x3c
 		}
 		reseedRand(c.Seed, "c18.namekey")
 		nk, _, _, err := type3.VerifEncryptOriginTokenRequest(k, 1, make([]byte, 256), make([]byte, 49), "o")
@@ -205,6 +210,9 @@ func runC18(c *Ctx) {
 				o = c.Run("c18.namekey", hx(pub))
 				c.Direct(o == "ok "+hxv(pub)+" "+hxv(sha256b(pub)), "type-3 name key id is not SHA-256 of the name key as serialized by its publisher", map[string]any{"key": hx(pub), "impl": o})
 				c.Count(fmt.Sprintf("id:name:kdf%d-aead%d", kdf, aead))
+				// the same key followed by other configuration bytes: the key, and its id, are those of the key alone
+				o = c.Run("c18.namekey", hx(append(append([]byte{}, pub...), r.Bytes(1+r.IntN(9))...)))
+				c.Direct(o == "ok "+hxv(pub)+" "+hxv(sha256b(pub)), "name key parsed from a longer buffer: its serialization or id is not that of the key alone", map[string]any{"key": hx(pub), "impl": o})
 			}
 		}
 	}
